@@ -281,6 +281,7 @@ jose_jwe_enc_cek_io(jose_cfg_t *cfg, json_t *jwe, const json_t *cek,
                     jose_io_t *next)
 {
     const jose_hook_alg_t *alg = NULL;
+    json_auto_t *dec = NULL;
     json_auto_t *prt = NULL;
     const char *h = NULL;
     const char *k = NULL;
@@ -289,8 +290,14 @@ jose_jwe_enc_cek_io(jose_cfg_t *cfg, json_t *jwe, const json_t *cek,
     if (json_unpack(jwe, "{s?{s?s}}", "unprotected", "enc", &h) < 0)
         return NULL;
 
-    if (json_unpack(jwe, "{s?{s?s}}", "protected", "enc", &h) < 0)
+    if (json_is_string(json_object_get(jwe, "protected"))) {
+        /* The protected header has been encoded already. */
+        dec = jose_b64_dec_load(json_object_get(jwe, "protected"));
+        if (!dec || json_unpack(dec, "{s?s}", "enc", &h) < 0)
+            return NULL;
+    } else if (json_unpack(jwe, "{s?{s?s}}", "protected", "enc", &h) < 0) {
         return NULL;
+    }
 
     if (json_unpack((json_t *) cek, "{s?s}", "alg", &k) < 0)
         return NULL;
